@@ -709,3 +709,59 @@ def rt4(ctx):
     if len(table) < 8:
         raise AnchorMissing("RT-4: normalise() has %d rewriting arms (expected >= 8)" % len(table))
     return r
+
+
+# ---------------------------------------------------------------- NRM-2: deromaniser strings live in the normalised word language
+
+def nrm2(ctx):
+    """Word text is normalised before Word::new reads it; a deromaniser `s > X` compares its string `s` with that text.
+    The string must therefore be normalised as well -- where the alias parser builds the Replacement, or where
+    Word::fill_segments compares it -- or an alias whose string contains a character that normalise() rewrites
+    (precomposed ã, ɚ, ǝ, ...) can never match."""
+    r = RuleResult("NRM-2", "a deromaniser's replacement string is normalised like the word text it is compared with (at AliasParseElement::Replacement construction for deromanisers, or at the comparison in Word::fill_segments)", floor=1)
+    lib = ctx.lib
+    ctx.fn(lib, NORMALISE)
+    sites = []
+    for b in lib.bodies:
+        if b.in_test_mod() or not b.hir or b.kind == "closure" or not b.path.startswith("asca::alias::parser::"):
+            continue
+        binds = None
+        for x in hirq.walk(b.hir["body"]):
+            if x["e"] == "call" and (hirq.strip(x["f"]).get("path") or "") == REPL and x["args"]:
+                binds = binds or Bindings(b.hir["body"], b.hir.get("params"))
+                sites.append((b, x, norm_status(x["args"][0], binds)))
+    if not sites:
+        raise AnchorMissing("NRM-2: no construction of AliasParseElement::Replacement in the alias parser")
+    at_parse = all(st[0] == "yes" for _b, _x, st in sites)
+    # the comparison side
+    fs = ctx.fn(lib, "asca::word::Word::fill_segments")
+    flags = set()
+    for pt in hirq.walk_pats(fs.hir["body"]):
+        if pt.get("p") == "ts" and pt.get("path") == REPL and pt.get("pats"):
+            for q in hirq.walk_pats(pt["pats"][0]):
+                if q.get("p") == "bind" and "hid" in q:
+                    flags.add(q["hid"])
+    flags = hirq.derived_hids(fs.hir["body"], flags)
+    cmp_sites = [x for x in hirq.walk(fs.hir["body"]) if x["e"] == "mcall" and x["name"] == "chars" and any(y["e"] == "path" and y.get("hid") in flags for y in hirq.walk(x["recv"]))]
+    if not cmp_sites:
+        raise AnchorMissing("NRM-2: Word::fill_segments does not iterate the characters of the replacement string")
+    at_cmp = all(_has_normalise(x["recv"]) or any(_has_normalise(binit) for binit in _let_inits(fs, x["recv"])) for x in cmp_sites)
+    ok = at_parse or at_cmp
+    for b, x, st in sites:
+        r.inst("%s: Replacement string is %s" % (b.path, "normalised when built" if st[0] == "yes" else "stored as typed"), fn_loc(b, x.get("ln")), "ok" if ok else "report")
+    r.inst("Word::fill_segments compares %s" % ("the normalised string" if at_cmp else "the stored string"), fn_loc(fs, cmp_sites[0].get("ln")), "ok" if ok else "report", nontrivial=False)
+    if not ok:
+        b, x, st = [s for s in sites if s[2][0] != "yes"][0]
+        r.report("NRM-2|deromaniser-string", fn_loc(b, x.get("ln")), b.path,
+                 "a deromaniser's string is stored as typed and compared with *normalised* word text: an alias such as `ã > o`, `ɚ > X` or `ǝ > X` (any string containing a character normalise() rewrites) never matches, so the text does not behave as if X had been typed")
+    r.analysed = {"replacement_ctor_sites": len(sites), "normalised_at_parse": at_parse, "normalised_at_comparison": at_cmp}
+    return r
+
+
+def _let_inits(body, e):
+    out = []
+    hs = {y.get("hid") for y in hirq.walk(e) if y["e"] == "path" and "hid" in y}
+    for n in hirq.walk(body.hir["body"]):
+        if n["e"] == "let" and n.get("init") is not None and any(q.get("hid") in hs for q in hirq.walk_pats(n["pat"]) if q.get("p") == "bind"):
+            out.append(n["init"])
+    return out
